@@ -195,7 +195,7 @@ pub fn install_panic_hook() {
         } else {
             "<non-string panic>".to_string()
         };
-        let quiet = QUIET.with(|q| q.get()) || std::env::var_os("VERIF_QUIET_PANICS").is_some();
+        let quiet = (QUIET.with(|q| q.get()) || std::env::var_os("VERIF_QUIET_PANICS").is_some()) && std::env::var_os("VERIF_LOUD").is_none();
         LAST_PANIC.with(|p| {
             // keep the FIRST panic of a case (later ones are usually consequences)
             let mut p = p.borrow_mut();
